@@ -326,6 +326,9 @@ class Options:
         return fn
 
 
+_NO_ROUTE = object()    # "no route given" (a route itself may be any key, None included)
+
+
 class RuntimeContext:
     override: bool = False
     depth: int
@@ -336,7 +339,7 @@ class RuntimeContext:
         self,
         context: "RuntimeContext" = None,
         cls=None,
-        route: Union[str, int] = None,
+        route: Union[str, int] = _NO_ROUTE,
         force_error: bool = False,
         error_hooks: dict = None,
         options: Options = None,
@@ -345,14 +348,14 @@ class RuntimeContext:
         self.context = context
         self.depth = context.depth if context else 0
 
-        self.route = route
+        self.route = None if route is _NO_ROUTE else route
         self.routes = []
         if self.context:
             self.routes = list(self.context.routes)
 
-        if route is not None:
+        if route is not _NO_ROUTE:
             # a route (field name, list index, mapping key) stays on the same nesting level;
-            # index 0 and empty keys are routes too
+            # index 0, empty keys and a None key are routes too
             self.routes.append(route)
         else:
             self.depth += 1
